@@ -87,7 +87,7 @@ pub fn concretise(unit: &str) -> Vec<u8> {
 }
 
 /// inverse of `concretise` on outputs (bytes -> placeholder text); other invalid bytes become U+FFFD
-fn lossy(b: &[u8]) -> String {
+pub fn lossy(b: &[u8]) -> String {
     let mut out = String::new();
     let mut i = 0;
     'outer: while i < b.len() {
